@@ -1,0 +1,56 @@
+//! Verification hooks, compiled only with `--cfg folo_verif` (never in a normal build).
+//!
+//! The local backend calls [`point`] at named places inside its operations. A point does
+//! two things, both opt-in:
+//!
+//! * it aborts the process when its name equals the `FOLO_VERIF_CRASH_AT` environment
+//!   variable, which lets a harness kill a writer between any two filesystem operations
+//!   of an atomic write and inspect the store from a fresh process afterwards;
+//! * it calls the step function a harness installed with [`install_step`], which lets a
+//!   harness park the calling thread there and interleave several writers and readers
+//!   one filesystem operation at a time.
+//!
+//! With neither selected a point is a no-op.
+
+use std::path::PathBuf;
+use std::sync::OnceLock;
+
+use crate::LocalStorage;
+
+/// Name of the environment variable that selects the point at which to abort.
+pub const CRASH_AT_VARIABLE: &str = "FOLO_VERIF_CRASH_AT";
+
+static STEP: OnceLock<fn(&str)> = OnceLock::new();
+
+static CRASH_AT: OnceLock<Option<String>> = OnceLock::new();
+
+/// Installs the function every later [`point`] calls with its name. Only the first
+/// installation in a process takes effect.
+pub fn install_step(step: fn(&str)) {
+    // A second installation is ignored on purpose: the table is process-global.
+    let _already_installed = STEP.set(step);
+}
+
+/// A named crash/step point. See the module documentation.
+pub fn point(name: &str) {
+    let crash_at = CRASH_AT.get_or_init(|| std::env::var(CRASH_AT_VARIABLE).ok());
+    if crash_at.as_deref() == Some(name) {
+        std::process::abort();
+    }
+    if let Some(step) = STEP.get() {
+        step(name);
+    }
+}
+
+/// Builds a local backend rooted at `root` (the crate-private constructor, exposed to the
+/// verification harness only).
+#[must_use]
+pub fn local_storage(root: impl Into<PathBuf>) -> LocalStorage {
+    LocalStorage::new(root)
+}
+
+/// Whether the key validation shared by every backend accepts `key`.
+#[must_use]
+pub fn key_is_valid(key: &str) -> bool {
+    crate::validate_key(key).is_ok()
+}
